@@ -508,6 +508,30 @@ func c11Hostile(c *vf.Ctx) {
 		a := c11ValidEncoding(r)
 		b := c11ValidEncoding(r)
 		in, kind := vf.Mutate(r, a, b)
+		if r.Intn(10) == 0 {
+			// a valid encoding in which one protocol code or length prefix is written as a padded
+			// (non-minimal) varint: the same value, another byte sequence
+			if segs, ok := refSegment(a); ok && len(segs) > 0 {
+				k := r.Intn(len(segs))
+				off := 0
+				for x := 0; x < k; x++ {
+					off += len(segs[x].raw)
+				}
+				_, n := binary.Uvarint(a[off:])
+				pos := off // pad the code ...
+				if segs[k].id != idBitswap && segs[k].id != idGateway && segs[k].id != idGraphsync && r.Intn(2) == 0 {
+					pos = off + n // ... or the length prefix of an unknown protocol
+				}
+				_, m := binary.Uvarint(a[pos:])
+				if m > 0 {
+					padded := append([]byte(nil), a[pos:pos+m]...)
+					padded[m-1] |= 0x80
+					padded = append(padded, 0x00)
+					in = append(append(append([]byte(nil), a[:pos]...), padded...), a[pos+m:]...)
+					kind = "padded-varint"
+				}
+			}
+		}
 		if r.Intn(6) == 0 { // second-order mutant
 			var k2 string
 			in, k2 = vf.Mutate(r, in, a)
@@ -539,6 +563,9 @@ var c11Corpus = []string{
 	"80128012a01200",                                                           // three protocols
 	"",                                                                         // empty
 	"80",                                                                       // truncated varint
+	"018200050600",                                                             // unknown: length prefix 2 padded to two bytes (82 00)
+	"3f8100aa",                                                                 // unknown: length prefix 1 padded (81 00)
+	"bf00" + "00",                                                              // code 0x3f padded (bf 00), empty payload
 }
 
 func c11HostileOne(c *vf.Ctx, sub string, i int, in []byte, kind string) {
